@@ -16,6 +16,7 @@
 //   t               every connected peer sends a keep-alive, then virtual time moves just past the
 //                   next 2-minute download tick (do_peer_exchange + keep-alives / read timeout)
 //   d<i>            the peer closes its socket
+//   w<i>:0 / w<i>:inf  the library-side socket of peer i accepts no more bytes / is unlimited again
 // Output: per op  "<op> => <events> # <snapshot>" joined by " ; ".
 //   events: E<i>(id=..,k=v,..,pay=<len>:<md5>) per extended message a peer received; X<i> peer saw EOF
 //   snapshot: per existing connection  S<i>[ids=<pex>,<meta> le=<pex><meta> rs=<pex><meta> ih=<b> ip=<b>
@@ -149,12 +150,13 @@ static std::string snapshot(Session& S, torrent::Download dl, Torrent* /*unused*
                (int)torrent::this_thread::poll()->in_read(pcb), (int)torrent::this_thread::poll()->in_write(pcb), ds,
                (unsigned)pcb->peer_info()->listen_port());
     } else {
-      snprintf(buf, sizeof buf, "S%d[ids=%u,%u le=%d%d rs=%d%d ih=%d ip=%d pend=%d mask=%d rd=%d wr=%d ds=%c lp=%u] ", kv.first,
+      snprintf(buf, sizeof buf, "S%d[ids=%u,%u le=%d%d rs=%d%d ih=%d ip=%d pend=%d mask=%d rd=%d wr=%d ds=%c up=%c buf=%u lp=%u] ", kv.first,
                (unsigned)e->id(torrent::ProtocolExtension::UT_PEX), (unsigned)e->id(torrent::ProtocolExtension::UT_METADATA),
                (int)e->is_local_enabled(torrent::ProtocolExtension::UT_PEX), (int)e->is_local_enabled(torrent::ProtocolExtension::UT_METADATA),
                (int)e->is_remote_supported(torrent::ProtocolExtension::UT_PEX), (int)e->is_remote_supported(torrent::ProtocolExtension::UT_METADATA),
                (int)e->is_initial_handshake(), (int)e->is_initial_pex(), (int)e->has_pending_message(), pcb->m_send_pex_mask,
                (int)torrent::this_thread::poll()->in_read(pcb), (int)torrent::this_thread::poll()->in_write(pcb), ds,
+               pcb->m_up->get_state() == torrent::ProtocolBase::IDLE ? 'I' : 'B', (unsigned)pcb->m_down->buffer()->remaining(),
                (unsigned)pcb->peer_info()->listen_port());
     }
     o += buf;
@@ -334,6 +336,12 @@ static std::string run_case(Session& S, const std::string& line) {
         } else if (k == 'd') {
           if (peers[idx].w) { peers[idx].w->close_all(); peers[idx].eof_reported = true; }
           pump_all();
+        } else if (k == 'w') {
+          // w<i>:0  the library-side socket of peer i accepts no more bytes (send() -> EAGAIN)
+          // w<i>:inf  unlimited again
+          if (!peers.count(idx)) return "BADCASE";
+          Session::set_send_budget(peers[idx].port, arg == "0" ? 0 : -1);
+          pump_all();
         } else {
           return "BADCASE";
         }
@@ -344,13 +352,16 @@ static std::string run_case(Session& S, const std::string& line) {
     }
   } catch (torrent::internal_error& e) {
     internal = true;
-    out += " ; ERR:internal " + std::string(e.what()).substr(0, 80);
+    fprintf(stderr, "[c20] internal_error: %s\n", e.what());
+    if (!out.empty()) out += " ; ";
+    out += "ERR:internal";
   }
   if (internal) {
     printf("%s\n", out.c_str());
     fflush(stdout);
     _exit(0);   // the session is unusable after an internal_error
   }
+  Session::clear_io_limits();
   for (auto& pk : peers)
     if (pk.second.w) pk.second.w->close_all();
   try {
